@@ -23,6 +23,8 @@ mod p15;
 mod p16;
 mod p17;
 mod p18;
+mod p19;
+mod p20;
 mod csg;
 
 use engine::*;
@@ -49,6 +51,8 @@ macro_rules! for_prop {
             "C16" => $f::<p16::P>($($arg),*),
             "C17" => $f::<p17::P>($($arg),*),
             "C18" => $f::<p18::P>($($arg),*),
+            "C19" => $f::<p19::P>($($arg),*),
+            "C20" => $f::<p20::P>($($arg),*),
             other => {
                 eprintln!("unknown property {other}");
                 std::process::exit(2)
